@@ -20,6 +20,10 @@ struct SanEntry {
                       //   DNS/EMAIL/URI: IA5String content; IP: OCTET STRING content;
                       //   OTHER: UTF8String value of a UPN otherName; DIR: commonName of the directoryName
 };
+struct AiaEntry {
+    int method;        // 0 = id-ad-ocsp, 1 = id-ad-caIssuers
+    std::string uri;   // raw IA5String bytes
+};
 struct LeafSpec {
     bool has_cn = false;
     int cn_type = CN_UTF8;
@@ -28,6 +32,18 @@ struct LeafSpec {
     bool san_critical = false;
     uint64_t serial = 1;
     int issuer = 0;              // 0 = EC P-256 CA + EC leaf key, 1 = RSA-2048 CA + RSA leaf key
+
+    // ---- name-bearing fields that do NOT name the subject for the purpose of the expected-name check (all optional, all non-critical)
+    std::vector<SanEntry> ian;   // issuerAltName (2.5.29.18) GeneralNames, same encoding as `san`; empty = no extension
+    bool ian_before_san = false; // position of the issuerAltName extension relative to subjectAltName in the extension list
+    std::vector<std::vector<SanEntry>> crldp; // cRLDistributionPoints: one DistributionPoint per element, its distributionPoint.fullName GeneralNames
+    std::vector<AiaEntry> aia;   // authorityInfoAccess AccessDescriptions (accessLocation is a uniformResourceIdentifier)
+    bool aki_issuer = false;     // authorityKeyIdentifier additionally carries authorityCertIssuer = directoryName{CN=aki_issuer_cn} + the CA's serial
+    std::string aki_issuer_cn;
+    bool has_ou = false;         // subject DN: organizationalUnitName (UTF8String) placed before the CN
+    std::string ou;
+    bool has_dn_email = false;   // subject DN: PKCS#9 emailAddress (IA5String) placed after the CN
+    std::string dn_email;
 };
 
 enum { ISS_EC = 0, ISS_RSA = 1 };
